@@ -38,6 +38,10 @@ CLAIMS = {
    technique="abstract evaluation of chan_push/chan_pop on abstract stacks; enter/leave pairing and injectivity of the constant dispatch tables vs. the catalogue's PAIR macros; typestate evaluation of per-model thread-state guards and end-of-trace lint",
    text="chan_pop/chan_push are explored on abstract stacks (empty, 1, 2, capacity-1, capacity, top equal/different, duplicate flags) and must implement match-the-top / refuse-full-stack exactly; for all 8 models every PAIR_x (and frozen hand-written) enter/leave pair must push and pop the same value on the same channel, and every (channel,value) must have exactly one enter and one leave event (dispatch tables evaluated exactly); every declared event is evaluated under the 6 consistent (running,active,out-of-CPU) thread states against the model's frozen precondition; each model's finish hook is evaluated in linter mode with open regions and its failure followed to main. Not decided: that a value 'means what its name documents' when both sides are swapped consistently.",
    design_ref="§4 C08"),
+ "C09": dict(
+   technique="ordering-of-effects analysis on abstract event traces: marker writer uniqueness, call order in ovni_thread_free with call-graph reachability of write_evbuf, abstract evaluation of the relocation loop over directory enumeration orders x copy failures with constant-folded string routines; reader guard and error propagation to main",
+   text="Decides the order in which the runtime issues its effects (the part of crash consistency the runtime controls): 'ovni.finished' has one writer (ovni_thread_free) unreachable from thread initialisation; on every path the metadata is stored after the marker is set and nothing that can reach write_evbuf follows; move_thdir_to_final is evaluated on 4 directory enumeration orders x every single failing copy and must move stream.json (the marker) after all other stream files and not at all if one failed; thread_load_metadata accepts only finished == 1 and its failure reaches ovniemu's exit status. Not decided: what the kernel / file system does between two system calls (page-cache durability).",
+   design_ref="§4 C09"),
  "C10": dict(
    technique="error-discipline dataflow: per I/O call site, abstract path exploration with the failure injected (derived failure values for internal wrappers), propagation call site by call site to a die or a documented warn-only sink; ordering analysis of destructive calls after a failed copy",
    text="Every call site of open/write/close/fopen/fread/fwrite/fclose/remove/rmdir/mkdir/stat/opendir/closedir and of the internal wrappers (mkpath, mkdir_if_need, json_serialize_to_file_pretty, move_thread_to_final) in libovni and common.c is enumerated from the resolved program; with the failure injected every path must die or return an error that each caller turns into its own failure, up to a die or the documented warn-only relocation sink (three frozen best-effort exceptions); remove() of a stream's temporary file must be unreachable after a failed fread/fwrite/fclose of its copy; write_evbuf must die on a failing write. parson's file serialiser is checked the same way. Not decided: that the run 'still leaves a complete, valid trace' as a whole-run outcome.",
